@@ -382,15 +382,17 @@ func c17CheckBilevel(c *Ctx, r *Rng, img *c17Img, tag string) {
 		valid := true
 		if r.Chance(0.25) {
 			valid = false
-			switch r.Intn(4) {
+			switch r.Intn(5) {
 			case 0:
 				l = -r.Range(1, 4)
 			case 1:
 				t = -r.Range(1, 4)
 			case 2:
 				l = img.w - cw + r.Range(1, 4)
-			default:
+			case 3:
 				t = img.h - ch + r.Range(1, 4)
+			default:
+				cw = -cw // negative extent
 			}
 		}
 		got := Safe(func() string {
@@ -411,7 +413,7 @@ func c17CheckBilevel(c *Ctx, r *Rng, img *c17Img, tag string) {
 		} else {
 			// padding of a YUV source makes "outside the view" lie inside the data: only the unambiguous classes are judged
 			beyondData := kind != "yuv" && kind != "yuvrev"
-			if l < 0 || t < 0 || beyondData {
+			if l < 0 || t < 0 || cw < 0 || beyondData {
 				c.Oracle("bilevel", strings.HasPrefix(got, "ERR:") && got != "ERR:notfound", "bitmap-crop-invalid-accepted", in2, c17Short(got))
 			}
 			c.Note("bitmap-crop:invalid")
